@@ -76,6 +76,19 @@ func newC04Obj(c *core.Ctx, i int, dsse bool, kind string) (*c04Obj, any) {
 	} else {
 		payload, tree = gen.GenLayout(r, true, gen.Mixed(Pool(c), 2), nil)
 	}
+	if i%3 == 2 {
+		// absent (nil) collections: signed as null, and they must survive a dump + load
+		switch p := payload.(type) {
+		case intoto.Link:
+			p.Materials, p.Command, p.Environment = nil, nil, nil
+			tree["materials"], tree["command"], tree["environment"] = nil, nil, nil
+			payload = p
+		case intoto.Layout:
+			p.Inspect = nil
+			tree["inspect"] = nil
+			payload = p
+		}
+	}
 	md, err := gen.NewMeta(payload, dsse)
 	if err != nil {
 		return nil, nil
@@ -104,6 +117,41 @@ func (o *c04Obj) mutate(payload any) (any, error) {
 	return payload, nil
 }
 
+// mutateInPlace changes an element of a collection of the payload that the
+// metadata object itself hands out (GetPayload shares maps and slices with the
+// object), then sets that payload again - as a caller who edits a loaded link
+// or layout would do.
+func (o *c04Obj) mutateInPlace() (any, error) {
+	o.version++
+	mark := fmt.Sprintf("inplace-v%d", o.version)
+	payload := o.md.GetPayload()
+	switch p := payload.(type) {
+	case intoto.Link:
+		if p.Environment == nil {
+			p.Environment = map[string]interface{}{}
+			o.tree["environment"] = map[string]any{}
+		}
+		p.Environment["edited"] = mark
+		o.tree["environment"].(map[string]any)["edited"] = mark
+		payload = p
+	case intoto.Layout:
+		if len(p.Steps) > 0 {
+			p.Steps[0].ExpectedCommand = append(p.Steps[0].ExpectedCommand[:0:0], mark)
+			st := o.tree["steps"].([]any)[0].(map[string]any)
+			st["expected_command"] = []any{mark}
+		} else {
+			p.Readme += mark
+			o.tree["readme"] = p.Readme
+		}
+		payload = p
+	}
+	if o.dsse {
+		return payload, o.md.(*intoto.Envelope).SetPayload(payload)
+	}
+	o.md.(*intoto.Metablock).Signed = payload
+	return payload, nil
+}
+
 func runC04(c *core.Ctx) {
 	pool := Pool(c)
 	hk := []gen.KeyPair{gen.ByKind(pool, "ed25519")[0], gen.ByKind(pool, "ecdsa-p256")[0], gen.ByKind(pool, "rsa2048")[0]}
@@ -111,7 +159,7 @@ func runC04(c *core.Ctx) {
 	all := append(append([]gen.KeyPair{}, hk...), outsider)
 
 	// ---- histories ---------------------------------------------------------------
-	ops := []string{"sign0", "sign1", "sign2", "dumpload", "mutate", "resign-same"}
+	ops := []string{"sign0", "sign1", "sign2", "dumpload", "mutate", "resign-same", "mutate-inplace"}
 	var histories [][]string
 	var rec func(prefix []string)
 	rec = func(prefix []string) {
@@ -221,9 +269,13 @@ func runC04(c *core.Ctx) {
 						}
 						o.md = md2
 						payload = md2.GetPayload()
-					case op == "mutate":
+					case op == "mutate" || op == "mutate-inplace":
 						var err error
-						payload, err = o.mutate(payload)
+						if op == "mutate-inplace" {
+							payload, err = o.mutateInPlace()
+						} else {
+							payload, err = o.mutate(payload)
+						}
 						if err != nil {
 							c.Violation("SetPayload failed: "+core.MsgClass(err.Error()), id, detail)
 							bad = true
@@ -559,9 +611,9 @@ func init() {
 	core.Register(&core.Property{
 		ID:    "C04",
 		Level: "exploration",
-		Rule: "(1) all operation histories of length<=3 (quick) / <=4 (thorough) over {sign(k0 Ed25519), sign(k1 ECDSA P-256), sign(k2 RSA-2048), dump+load, change a signed field, sign again with the last signer} x {link, layout} x {legacy, DSSE}; after every operation each of 4 keys (3 history keys + an outsider) must verify iff it signed the current content, and every emitted signature is verified independently with crypto/* over reference bytes (reference canonical JSON / reference DSSE PAE); (2) every key kind (RSA-2048/3072, ECDSA P-224/256/384/521, Ed25519; thorough: fresh keys too) x wrapper x payload: library signs -> stdlib verifies, dump+load, stdlib signs reference bytes -> library verifies; (3) single-point mutations: every payload leaf edit/delete/insert, signature first/middle/last character, empty/doubled signature, key id edit, every other pool key, key objects with the signer's id and foreign material in both orders of use. " +
+		Rule: "(1) all operation histories of length<=3 (quick) / <=4 (thorough) over {sign(k0 Ed25519), sign(k1 ECDSA P-256), sign(k2 RSA-2048), dump+load, change a signed field, sign again with the last signer, edit an element of a collection handed out by GetPayload and set the payload again} x {link, layout} x {legacy, DSSE}; after every operation each of 4 keys (3 history keys + an outsider) must verify iff it signed the current content, and every emitted signature is verified independently with crypto/* over reference bytes (reference canonical JSON / reference DSSE PAE); (2) every key kind (RSA-2048/3072, ECDSA P-224/256/384/521, Ed25519; thorough: fresh keys too) x wrapper x payload: library signs -> stdlib verifies, dump+load, stdlib signs reference bytes -> library verifies; (3) single-point mutations: every payload leaf edit/delete/insert, signature first/middle/last character, empty/doubled signature, key id edit, every other pool key, key objects with the signer's id and foreign material in both orders of use. " +
 			"non-trivial = history contains a sign; distinct = (history, wrapper, payload type) / (key kind, wrapper, payload) / (mutation label...)",
-		Assumptions: []string{"Go's crypto/rsa, crypto/ecdsa, crypto/ed25519 are the trusted base (independent use, not an independent implementation)", "payloads are generated with hostile strings; reference bytes come from harness/ref/cjson.go"},
+		Assumptions: []string{"Go's crypto/rsa, crypto/ecdsa, crypto/ed25519 are the trusted base (independent use, not an independent implementation)", "payloads are generated with hostile strings, a third of them with absent (nil) collections; reference bytes come from harness/ref/cjson.go"},
 		Workers:     func(string) int { return 16 },
 		Floors: func(string) map[string]int64 {
 			return map[string]int64{"history_verifications_expected_ok": 1000, "history_verifications_expected_fail": 1000, "interop_signatures_ok": 50, "mutations_rejected": 500}
